@@ -19,7 +19,7 @@ variable {α : Type} [Field α] [LinearOrder α] [IsStrictOrderedRing α]
 For any battery obeying `BatLaw` (0 ≤ average power ≤ offered power — C01/C02) whose target-power discharge
 delivers exactly `min target available` (`UnloadExact`, C02) and whose `get_available_power` returns
 (`AvailTotal`, C01), for any number of connectors of either station type, any choice of greedy / balanced as
-sub-strategy on either side (`ps = none`: not a peak-shaving sub-strategy), any vehicles, stations, `number_cs`, future arrivals, and any number of
+sub-strategy on either side (`isRule`: neither a peak-shaving nor a peak-load-window sub-strategy), any vehicles, stations, `number_cs`, future arrivals, and any number of
 stationary batteries per connector: if before the step every connector's load is at most its limit
 `cur_max_power ≥ 0`, then after `Distributed.step`
 * every connector's load is at most its limit, and
@@ -30,7 +30,7 @@ battery powers and the tolerances are non-negative. -/
 theorem C04_distributed_upper {B : Type} (dops : DOps α B) (law : BatLaw dops.bat)
     (hex : UnloadExact dops.bat) (htot : AvailTotal dops.bat) (de : DEnv α)
     (he : 0 ≤ de.env.eps) (hed : 0 ≤ de.deps.eps) (heo : 0 ≤ de.opps.eps)
-    (hd : de.deps.ps = none) (ho : de.opps.ps = none)
+    (hd : de.deps.isRule) (ho : de.opps.isRule)
     (s s' : DState α B) (cmds : List (String × α))
     (hgb : ∀ g, ((sdGet s.init.gcBattery g).getD []).Nodup)
     (hmin : ∀ b ∈ s.world.batteries, 0 ≤ b.minChargingPower)
@@ -74,7 +74,7 @@ theorem C04_distributed_upper {B : Type} (dops : DOps α B) (law : BatLaw dops.b
 changes no limit, and touches no other connector's loads (frame; used for C14's independence sentence). -/
 theorem C04_distributed_connector {B : Type} (dops : DOps α B) (law : BatLaw dops.bat)
     (hex : UnloadExact dops.bat) (htot : AvailTotal dops.bat) (de : DEnv α)
-    (hed : 0 ≤ de.deps.eps) (heo : 0 ≤ de.opps.eps) (hd : de.deps.ps = none) (ho : de.opps.ps = none)
+    (hed : 0 ≤ de.deps.eps) (heo : 0 ≤ de.opps.eps) (hd : de.deps.isRule) (ho : de.opps.isRule)
     (ncs : List (String × Option Int)) (conn : List (String × List String)) (lk : Look α)
     (st st' : SWorld α B × DInit α × List (String × α)) (gcId : String)
     (hgb : ∀ g, ((sdGet st.2.1.gcBattery g).getD []).Nodup)
@@ -103,7 +103,7 @@ example : ∃ s' cmds, step (toyDOps 5) toyEnv toyState = .ok (s', cmds) ∧
     obtain ⟨s', cmds⟩ := r
     obtain ⟨hgb, hmin, h0⟩ := toyState_wf
     exact ⟨s', cmds, rfl, C04_distributed_upper (toyDOps 5) (toyOps_law 5 (by norm_num)) (toyOps_exact 5)
-      (toyOps_total 5) toyEnv (by norm_num [toyEnv]) (by norm_num [toyEnv]) (by norm_num [toyEnv]) rfl rfl
+      (toyOps_total 5) toyEnv (by norm_num [toyEnv]) (by norm_num [toyEnv]) (by norm_num [toyEnv]) ⟨rfl, rfl⟩ ⟨rfl, rfl⟩
       toyState s' cmds hgb hmin h0 h⟩
 
 /-- … and the limit is used to the full: after the step GC1 carries exactly its 10 kW (4 fixed + 11 vehicle − 5
